@@ -108,4 +108,32 @@ Section Rot.
     let P2 := angle_axis c_i s_i x in
     let P3 := angle_axis c_O s_O z in
     q_mul P3 (q_mul P2 P1).
+
+  (* reb_rotation_to_orbital.  inc = acos(orbital_acos_arg q), hs = atan2(q.iz, q.r), hd = atan2(q.iy, q.ix) are supplied (libm);
+     pi = M_PI, min_inc = MIN_INC = 1e-8.  Result (Omega, inc, omega). *)
+  Definition orbital_acos_arg (q : quat T) : T := two * (qr q * qr q + qiz q * qiz q) - 1.
+  Definition to_orbital (pi min_inc inc hs hd : T) : T * T * T :=
+    let safe1 := nltb N min_inc (nabs N inc) in
+    let safe2 := nltb N min_inc (nabs N (inc - pi)) in
+    let Oo := if andb safe1 safe2 then (hs + hd, hs - hd)
+              else (0, if negb safe1 then two * hs else two * hd) in
+    let om := if nltb N (snd Oo) 0 then snd Oo + pi * two else snd Oo in
+    let Om := if nltb N (fst Oo) 0 then fst Oo + pi * two else fst Oo in
+    (Om, inc, om).
+
+  (* reb_rotation_slerp.  halfTheta = acos(slerp_cos q1 q2), sA = sin((1-t)*halfTheta), sB = sin(t*halfTheta) are supplied (libm);
+     eps = QUATERNION_EPS = 1e-4 *)
+  Definition slerp_cos (q1 q2 : quat T) : T := qr q1 * qr q2 + qix q1 * qix q2 + qiy q1 * qiy q2 + qiz q1 * qiz q2.
+  Definition slerp_sin_args (t halfTheta : T) : T * T := ((1 - t) * halfTheta, t * halfTheta).
+  Definition slerp (eps sA sB : T) (q1 q2 : quat T) : quat T :=
+    let c := slerp_cos q1 q2 in
+    if nleb N 1 (nabs N c) then q1
+    else
+      let s := nsqrt N (1 - c * c) in
+      if nltb N (nabs N s) eps then
+        let h := 1 / two in
+        mkQ (qix q1 * h + qix q2 * h) (qiy q1 * h + qiy q2 * h) (qiz q1 * h + qiz q2 * h) (qr q1 * h + qr q2 * h)
+      else
+        let ra := sA / s in let rb := sB / s in
+        mkQ (qix q1 * ra + qix q2 * rb) (qiy q1 * ra + qiy q2 * rb) (qiz q1 * ra + qiz q2 * rb) (qr q1 * ra + qr q2 * rb).
 End Rot.
